@@ -14,6 +14,12 @@
 //!                s: `msgs <n> <message>* end ok <trailers map|none>` | `msgs <n> <message>* end err <status>`
 //!                status = `<code> <message> <details> <metadata map>` (c04 form); a status made by
 //!                the layer itself (tonic-web's own INTERNAL texts) is printed as `layer`
+//!   `cl` and `st` take an optional RESPONSE HEAD in front of the events:
+//!                `rp <status> <h09|h10|h11|h2|h3> <n> (<name> <value>){n}` — the HTTP status, version and
+//!                headers (content-type among them) of the response the inner service answers with;
+//!                without it: 200, HTTP/1.1, no headers.  A `cl` case with a head is observed as
+//!                `rp <status> <ver> <n> (name value)*` (the head the CALLER of the layer gets; headers
+//!                stably sorted by name) followed by the frames.
 //! events as in c16. Observed frames: `d <hex>` | `t <n> (name value)*` (sorted by name, value
 //! order kept) | final `eos` / `err` / `busy`; then `ae <n>` = polls of the inner body after its end.
 use crate::c16::{all_chunkings, big_payload, big_trailers, block_on, chunkings, frame, frames_bytes, gen_frames, gen_trailers, gen_trailers_valid, header_map, parse_evs, prefix_marks, render_evs, with_pendings, Ev, ScriptBody, BIG_SIZES};
@@ -79,7 +85,71 @@ where
 /// inner HTTP service of the client: records the request, answers with the scripted body
 struct InnerHttp {
     resp: Option<ScriptBody>,
+    head: Option<RespHead>,
     seen: Arc<Mutex<Vec<String>>>,
+}
+
+/// status, version and headers of the scripted HTTP response
+#[derive(Clone, Debug)]
+pub struct RespHead {
+    pub status: u16,
+    pub version: Version,
+    pub headers: Vec<(Vec<u8>, Vec<u8>)>,
+}
+
+fn ver_of(tok: &str) -> Option<Version> {
+    Some(match tok {
+        "h09" => Version::HTTP_09,
+        "h10" => Version::HTTP_10,
+        "h11" => Version::HTTP_11,
+        "h2" => Version::HTTP_2,
+        "h3" => Version::HTTP_3,
+        _ => return None,
+    })
+}
+
+fn ver_tok(v: Version) -> &'static str {
+    match v {
+        Version::HTTP_09 => "h09",
+        Version::HTTP_10 => "h10",
+        Version::HTTP_11 => "h11",
+        Version::HTTP_2 => "h2",
+        Version::HTTP_3 => "h3",
+        _ => "h?",
+    }
+}
+
+/// `rp <status> <ver> <n> (<name> <value>){n}` in front of the events; `Some((None, toks))` when
+/// there is no head, `None` when it is malformed
+fn parse_head<'a>(toks: &'a [&'a str]) -> Option<(Option<RespHead>, &'a [&'a str])> {
+    match toks {
+        ["rp", st, ver, n, rest @ ..] => {
+            let status: u16 = st.parse().ok()?;
+            http::StatusCode::from_u16(status).ok()?;
+            let version = ver_of(ver)?;
+            let n: usize = n.parse().ok()?;
+            if rest.len() < 2 * n {
+                return None;
+            }
+            let mut headers = Vec::new();
+            for i in 0..n {
+                headers.push((unhex(rest[2 * i])?, unhex(rest[2 * i + 1])?));
+            }
+            header_map(&headers)?;
+            Some((Some(RespHead { status, version, headers }), &rest[2 * n..]))
+        }
+        ["rp", ..] => None,
+        _ => Some((None, toks)),
+    }
+}
+
+fn render_head(h: &RespHead) -> String {
+    let mut out = vec!["rp".to_string(), h.status.to_string(), ver_tok(h.version).to_string(), h.headers.len().to_string()];
+    for (k, v) in &h.headers {
+        out.push(hex(k));
+        out.push(hex(v));
+    }
+    out.join(" ")
 }
 
 impl<B> Service<Request<B>> for InnerHttp
@@ -94,6 +164,7 @@ where
     }
     fn call(&mut self, req: Request<B>) -> Self::Future {
         let resp = self.resp.take().expect("one call");
+        let head = self.head.take();
         let seen = self.seen.clone();
         Box::pin(async move {
             let (parts, body) = req.into_parts();
@@ -106,17 +177,24 @@ where
                 });
             }
             drain_into(body, seen).await;
-            Ok(Response::new(resp))
+            let mut resp = Response::new(resp);
+            if let Some(h) = head {
+                *resp.status_mut() = http::StatusCode::from_u16(h.status).expect("checked");
+                *resp.version_mut() = h.version;
+                *resp.headers_mut() = header_map(&h.headers).expect("checked");
+            }
+            Ok(resp)
         })
     }
 }
 
-fn run_client(resp_evs: Vec<Ev>, req_evs: Vec<Ev>) -> (Vec<String>, Vec<String>, usize, bool) {
+fn run_client(head: Option<RespHead>, resp_evs: Vec<Ev>, req_evs: Vec<Ev>) -> (Vec<String>, Vec<String>, usize, bool) {
+    let with_head = head.is_some();
     let body = ScriptBody::new(resp_evs);
     let after_end = body.after_end.clone();
     let seen = Arc::new(Mutex::new(Vec::new()));
     let frames = Arc::new(Mutex::new(Vec::new()));
-    let inner = InnerHttp { resp: Some(body), seen: seen.clone() };
+    let inner = InnerHttp { resp: Some(body), head, seen: seen.clone() };
     let mut svc = tonic_web::GrpcWebClientService::new(inner);
     let mut req = Request::new(ScriptBody::new(req_evs));
     *req.version_mut() = Version::HTTP_2;
@@ -124,7 +202,16 @@ fn run_client(resp_evs: Vec<Ev>, req_evs: Vec<Ev>) -> (Vec<String>, Vec<String>,
     let f2 = frames.clone();
     let r = catch_unwind(AssertUnwindSafe(move || {
         let res = block_on(svc.call(req)).expect("response future").unwrap();
-        block_on(drain_into(res.into_body(), f2)).is_some()
+        let (parts, body) = res.into_parts();
+        if with_head {
+            // the head as the caller of the layer gets it
+            let mut o = f2.lock().unwrap();
+            o.push("rp".into());
+            o.push(parts.status.as_u16().to_string());
+            o.push(ver_tok(parts.version).into());
+            o.push(crate::c16::render_headers_sorted(&parts.headers));
+        }
+        block_on(drain_into(body, f2)).is_some()
     }));
     let panicked = r.is_err();
     let hung = matches!(r, Ok(false));
@@ -143,18 +230,20 @@ pub fn execute(case: &str) -> String {
     let t: Vec<&str> = case.split(' ').filter(|s| !s.is_empty()).collect();
     match t.as_slice() {
         ["cl", evs @ ..] | ["asis", evs @ ..] => {
+            let Some((head, evs)) = parse_head(evs) else { return "bad-case".into() };
             let Some(evs) = parse_evs(evs) else { return "bad-case".into() };
-            let (fr, _, ae, _) = run_client(evs, vec![]);
+            let (fr, _, ae, _) = run_client(head, evs, vec![]);
             format!("{} ae {}", fr.join(" "), ae)
         }
         ["creq", evs @ ..] => {
             let Some(evs) = parse_evs(evs) else { return "bad-case".into() };
-            let (_, seen, _, _) = run_client(vec![], evs);
+            let (_, seen, _, _) = run_client(None, vec![], evs);
             seen.join(" ")
         }
         ["st", kind @ ("u" | "s"), evs @ ..] => {
+            let Some((head, evs)) = parse_head(evs) else { return "bad-case".into() };
             let Some(evs) = parse_evs(evs) else { return "bad-case".into() };
-            run_status(kind, evs)
+            run_status(kind, head, evs)
         }
         _ => "bad-case".into(),
     }
@@ -208,10 +297,10 @@ impl tonic::codec::Codec for RawCodec {
 }
 
 /// The caller's view: `tonic::client::Grpc` over the client layer over a scripted HTTP service.
-fn run_status(kind: &str, resp_evs: Vec<Ev>) -> String {
+fn run_status(kind: &str, head: Option<RespHead>, resp_evs: Vec<Ev>) -> String {
     let body = ScriptBody::new(resp_evs);
     let seen = Arc::new(Mutex::new(Vec::new()));
-    let inner = InnerHttp { resp: Some(body), seen };
+    let inner = InnerHttp { resp: Some(body), head, seen };
     let svc = tonic_web::GrpcWebClientService::new(inner);
     let mut grpc = tonic::client::Grpc::with_origin(svc, http::Uri::from_static("http://verif.test"));
     let path = http::uri::PathAndQuery::from_static("/verif.Svc/Call");
@@ -322,6 +411,228 @@ fn data_evs(chunks: &[Vec<u8>]) -> Vec<Ev> {
     chunks.iter().map(|c| Ev::Data(c.clone())).collect()
 }
 
+/// response content-types: absent is drawn separately.  The four literals tonic-web knows, other
+/// message formats, parameters, letter case, the text (base64) family, and things that are not
+/// grpc-web at all.
+const BIN_CTS: [&[u8]; 14] = [
+    b"application/grpc-web",
+    b"application/grpc-web+proto",
+    b"application/grpc-web+json",
+    b"application/grpc-web+thrift",
+    b"application/grpc-web+proto; charset=utf-8",
+    b"application/grpc-web;charset=utf-8",
+    b"application/grpc-web ; q=1",
+    b"Application/GRPC-Web+Proto",
+    b"APPLICATION/GRPC-WEB",
+    b"application/Grpc-Web+JSON; Charset=UTF-8",
+    b"application/grpc-web+",
+    b"application/grpc-web+x.y-z",
+    b" application/grpc-web+proto",
+    b"application/grpc-web+proto ",
+];
+const TEXT_CTS: [&[u8]; 7] = [
+    b"application/grpc-web-text",
+    b"application/grpc-web-text+proto",
+    b"application/grpc-web-text+json",
+    b"application/grpc-web-text; charset=utf-8",
+    b"application/grpc-web-text+proto;charset=utf-8",
+    b"Application/Grpc-Web-Text",
+    b"APPLICATION/GRPC-WEB-TEXT+PROTO",
+];
+const OTHER_CTS: [&[u8]; 14] = [
+    b"application/grpc",
+    b"application/grpc+proto",
+    b"application/grpc+json",
+    b"text/html",
+    b"text/html; charset=utf-8",
+    b"application/json",
+    b"application/grpc-webx",
+    b"application/grpc-web-textual",
+    b"application/grpc-web/proto",
+    b"xapplication/grpc-web",
+    b"",
+    b"garbage",
+    b"\xff\xfeapplication/grpc-web",
+    b";application/grpc-web",
+];
+
+fn ct_header(v: &[u8]) -> (Vec<u8>, Vec<u8>) {
+    (b"content-type".to_vec(), v.to_vec())
+}
+
+/// 0 = binary family (or absent), 1 = text family, 2 = not grpc-web
+fn gen_content_type(rng: &mut Rng, family: u64) -> Option<Vec<u8>> {
+    match family {
+        0 => {
+            if rng.chance(1, 6) {
+                None
+            } else {
+                Some(rng.pick(&BIN_CTS).to_vec())
+            }
+        }
+        1 => Some(rng.pick(&TEXT_CTS).to_vec()),
+        _ => Some(rng.pick(&OTHER_CTS).to_vec()),
+    }
+}
+
+/// a response head.  `caller`: for `st` cases — only headers tonic's client does not interpret
+/// itself (no grpc-status / grpc-encoding in the HEADERS).
+fn gen_head(rng: &mut Rng, family: u64, caller: bool) -> RespHead {
+    const ST_CL: [u16; 16] = [200, 200, 200, 200, 200, 200, 200, 201, 204, 206, 302, 400, 404, 500, 503, 999];
+    const ST_CALLER: [u16; 16] = [200, 200, 200, 200, 200, 200, 200, 200, 204, 302, 400, 401, 403, 404, 429, 503];
+    let status = if caller { *rng.pick(&ST_CALLER) } else { *rng.pick(&ST_CL) };
+    let version = *rng.pick(&[Version::HTTP_11, Version::HTTP_11, Version::HTTP_2, Version::HTTP_2, Version::HTTP_10, Version::HTTP_3, Version::HTTP_09]);
+    let mut headers: Vec<(Vec<u8>, Vec<u8>)> = Vec::new();
+    let extra: &[(&str, &[u8])] = if caller {
+        &[("x-resp", b"1"), ("x-resp", b"2"), ("x-a", b"from-header"), ("server", b"envoy"), ("x-trace-bin", b"AAEC"), ("date", b"Thu, 01 Jan 1970 00:00:00 GMT")]
+    } else {
+        &[("x-resp", b"1"), ("x-resp", b"2"), ("x-a", b"from-header"), ("server", b"envoy"), ("grpc-status", b"7"), ("grpc-message", b"in%20headers"), ("grpc-encoding", b"gzip"), ("content-length", b"12"), ("transfer-encoding", b"chunked"), ("accept", b"application/grpc-web-text"), ("access-control-expose-headers", b"grpc-status,grpc-message"), ("te", b"trailers")]
+    };
+    for _ in 0..rng.below(3) {
+        let (k, v) = *rng.pick(extra);
+        headers.push((k.as_bytes().to_vec(), v.to_vec()));
+    }
+    if let Some(ct) = gen_content_type(rng, family) {
+        let at = rng.below(headers.len() as u64 + 1) as usize;
+        headers.insert(at, ct_header(&ct));
+        if rng.chance(1, 12) {
+            // a second content-type value: the first one counts
+            let fam2 = rng.below(3);
+            if let Some(ct2) = gen_content_type(rng, fam2) {
+                headers.push(ct_header(&ct2));
+            }
+        }
+    }
+    for _ in 0..rng.below(2) {
+        let (k, v) = *rng.pick(extra);
+        headers.push((k.as_bytes().to_vec(), v.to_vec()));
+    }
+    RespHead { status, version, headers }
+}
+
+fn case_with_head(kind: &str, head: &RespHead, evs: &[Ev]) -> String {
+    case_of(&format!("{} {}", kind, render_head(head)), evs)
+}
+
+fn head_ct(ct: Option<&[u8]>) -> RespHead {
+    RespHead { status: 200, version: Version::HTTP_11, headers: ct.map(|c| vec![ct_header(c)]).unwrap_or_default() }
+}
+
+/// The response head as a dimension (DESIGN §9.10): every content-type of the tables × grpc-web
+/// bodies (binary; base64 for the text family), then random heads × bodies × chunkings, for the
+/// layer alone (`cl`) and under `client::Grpc` (`st`).
+fn gen_head_cases(thorough: bool, rng: &mut Rng, out: &mut Vec<String>) {
+    let msg = frame(0, &[9, 9]);
+    let tf7 = trailers_frame(b"grpc-status:7\r\ngrpc-message:denied: a%3Ab\r\nx-a:1\r\nx-a:2\r\n");
+    let body: Vec<u8> = [msg.clone(), tf7.clone()].concat();
+    let only_trailers = tf7.clone();
+    // ---- corpus: one line per content-type value ------------------------------------------------
+    let mut all: Vec<Option<&[u8]>> = vec![None];
+    all.extend(BIN_CTS.iter().map(|c| Some(*c)));
+    all.extend(TEXT_CTS.iter().map(|c| Some(*c)));
+    all.extend(OTHER_CTS.iter().map(|c| Some(*c)));
+    for ct in &all {
+        let h = head_ct(*ct);
+        // the binary body: whole, and cut inside the trailers frame
+        out.push(case_with_head("cl", &h, &[Ev::Data(body.clone())]));
+        out.push(case_with_head("cl", &h, &[Ev::Data(body[..9].to_vec()), Ev::Data(body[9..].to_vec())]));
+        out.push(case_with_head("cl", &h, &[Ev::Data(only_trailers.clone())]));
+        out.push(case_with_head("st s", &h, &[Ev::Data(body.clone())]));
+        out.push(case_with_head("st u", &h, &[Ev::Data(body.clone())]));
+        // the same body in its text form (what a server answering `…-text` would send)
+        let text = crate::c16::b64(&body);
+        out.push(case_with_head("cl", &h, &[Ev::Data(text.clone())]));
+        out.push(case_with_head("cl", &h, &[Ev::Data(text[..6].to_vec()), Ev::Data(text[6..].to_vec())]));
+        out.push(case_with_head("st s", &h, &[Ev::Data(text.clone())]));
+        // cut off
+        out.push(case_with_head("cl", &h, &[Ev::Data(body[..body.len() - 3].to_vec())]));
+        out.push(case_with_head("cl", &h, &[]));
+    }
+    // every status / version once, with and without a content-type
+    for st in [100u16, 101, 199, 200, 201, 204, 206, 301, 304, 400, 401, 403, 404, 418, 429, 500, 502, 503, 504, 599, 999] {
+        for ct in [None, Some(&b"application/grpc-web+proto"[..]), Some(&b"text/html"[..])] {
+            let mut h = head_ct(ct);
+            h.status = st;
+            h.headers.push((b"x-resp".to_vec(), b"1".to_vec()));
+            out.push(case_with_head("cl", &h, &[Ev::Data(body.clone())]));
+            if st >= 200 {
+                out.push(case_with_head("st s", &h, &[Ev::Data(body.clone())]));
+                out.push(case_with_head("st u", &h, &[Ev::Data(body.clone())]));
+                out.push(case_with_head("st u", &h, &[Ev::Data(frame(0, &[5]))]));
+            }
+        }
+    }
+    for v in [Version::HTTP_09, Version::HTTP_10, Version::HTTP_11, Version::HTTP_2, Version::HTTP_3] {
+        let mut h = head_ct(Some(b"application/grpc-web+proto"));
+        h.version = v;
+        out.push(case_with_head("cl", &h, &[Ev::Data(body.clone())]));
+        out.push(case_with_head("st u", &h, &[Ev::Data(body.clone())]));
+    }
+    // ---- structured: random heads × bodies × chunkings -----------------------------------------
+    let n = if thorough { 4000 } else { 350 };
+    for _ in 0..n {
+        let family = *rng.pick(&[0u64, 0, 0, 0, 1, 2]);
+        let caller = rng.chance(1, 3);
+        let head = gen_head(rng, family, caller);
+        let fs: Vec<(u8, Vec<u8>)> = if caller {
+            (0..rng.below(3)).map(|_| (0u8, { let l = *rng.pick(&[0usize, 1, 2, 5, 9, 300]); rng.bytes(l) })).collect()
+        } else {
+            gen_frames(rng, 3, false)
+        };
+        let tr = if caller { gen_status_trailers(rng) } else { gen_trailers(rng) };
+        if header_map(&tr).is_none() {
+            continue;
+        }
+        let sep: &[u8] = if rng.chance(1, 4) { b": " } else { b":" };
+        let mut bytes = frames_bytes(&fs);
+        let mlen = bytes.len();
+        if rng.chance(9, 10) {
+            bytes.extend_from_slice(&trailers_frame(&block_of(&tr, sep)));
+        }
+        match rng.below(10) {
+            0 => {
+                let c = rng.below(bytes.len() as u64 + 1) as usize;
+                bytes.truncate(c);
+            }
+            1 => {
+                if !bytes.is_empty() {
+                    let i = rng.below(bytes.len() as u64) as usize;
+                    bytes[i] ^= 1 << rng.below(8);
+                }
+            }
+            _ => {}
+        }
+        // a text-family response mostly carries the base64 form (whole, or flushed in padded pieces)
+        let mut marks = prefix_marks(&fs);
+        for d in 0..=6 {
+            marks.push(mlen + d);
+        }
+        if family == 1 && rng.chance(3, 4) {
+            bytes = if rng.chance(1, 2) || bytes.len() < 2 {
+                crate::c16::b64(&bytes)
+            } else {
+                let c = rng.range(1, bytes.len() as u64 - 1) as usize;
+                [crate::c16::b64(&bytes[..c]), crate::c16::b64(&bytes[c..])].concat()
+            };
+            marks = vec![4, 5, 8];
+            if rng.chance(1, 8) && !bytes.is_empty() {
+                let i = rng.below(bytes.len() as u64) as usize;
+                bytes[i] = *rng.pick(b"=*A\x00\x80");
+            }
+        }
+        let cks = chunkings(&bytes, &marks, rng, 2);
+        let ck = cks[rng.below(cks.len() as u64) as usize].clone();
+        let mut evs = with_pendings(&ck, rng, 4);
+        match rng.below(30) {
+            0 => evs.push(Ev::Err),
+            1 => evs.push(Ev::Trailers(vec![(b"grpc-status".to_vec(), b"5".to_vec())])),
+            _ => {}
+        }
+        let kind = if caller { if rng.chance(1, 2) { "st u" } else { "st s" } } else { "cl" };
+        out.push(case_with_head(kind, &head, &evs));
+    }
+}
+
 pub fn generate(tier: &str, rng: &mut Rng) -> Vec<String> {
     let thorough = tier == "thorough";
     let kind = if std::env::var("VERIF_C17_ASIS").is_ok() { "asis" } else { "cl" };
@@ -385,6 +696,11 @@ pub fn generate(tier: &str, rng: &mut Rng) -> Vec<String> {
             out.push(case_of("st s", &[Ev::Data([msg.clone(), trailers_frame(blk)].concat())]));
             out.push(case_of("st u", &[Ev::Data([msg.clone(), trailers_frame(blk)].concat())]));
         }
+    }
+
+    // ---- the response head: content-type (and status, version, other headers) -----------------
+    if kind == "cl" {
+        gen_head_cases(thorough, rng, &mut out);
     }
 
     // ---- sizes around 16 KiB / 32 KiB / 64 KiB and beyond (DESIGN §9.9 A1) -----------------------
